@@ -339,6 +339,14 @@ def r20_2(rep: Report, cls: ast.ClassDef) -> None:
             acc = None                  # name of the accumulator object
             adders: list[tuple[ast.AST, ast.AST]] = []     # (statement/call node, chunk expression)
             src = ret
+            # statements before the return in its own block (for names that are reused)
+            rblock = None
+            for n_ in ast.walk(fn):
+                for fld in ('body', 'orelse', 'finalbody'):
+                    b_ = getattr(n_, fld, None)
+                    if isinstance(b_, list) and any(isinstance(x, ast.Return) and x.value is ret for x in b_):
+                        i_ = [j for j, x in enumerate(b_) if isinstance(x, ast.Return) and x.value is ret][0]
+                        rblock = b_[:i_]
             if isinstance(src, ast.Call) and isinstance(src.func, ast.Name) and src.func.id in ('bytes', 'bytearray') \
                     and len(src.args) == 1 and not src.keywords and isinstance(src.args[0], ast.Name):
                 src = src.args[0]           # bytes(data): the same length
@@ -353,6 +361,10 @@ def r20_2(rep: Report, cls: ast.ClassDef) -> None:
                     adders = [(g, g.value) for g in augs]
                 elif len(defs) == 1:
                     src = defs[0].value
+                elif rblock is not None and [d for d in defs if any(d is x for x in rblock)]:
+                    # the name is used for something else earlier: what reaches the return is the last
+                    # assignment in the block of the return itself
+                    src = [d for d in defs if any(d is x for x in rblock)][-1].value
                 else:
                     return False, f'`{src.id}` is not a single buf.getvalue()'
             if acc is None:
@@ -1036,7 +1048,7 @@ def analyse(rep: Report) -> None:
     rep.rule('R20.1', 'positions exchanged with the underlying reader are window-translated', floor=4)
     rep.rule('R20.2', 'returned byte strings are bounded by the window when its size is known', floor=5)
     rep.rule('R20.3', 'seek clamps pos into [0, size]; read advances by the length returned', floor=4)
-    rep.rule('R20.4', 'cache eviction/insertion keep the counter paired; bucket keys are aligned', floor=6)
+    rep.rule('R20.4', 'cache eviction/insertion keep the counter paired; bucket keys are aligned', floor=4)
     rep.rule('R20.6', 'the optional window size is tested with `is None`, never by truthiness', floor=3)
     rep.rule('R20.7', 'a bucket is filled from the file position bucket + offset on every path', floor=1)
     rep.rule('R20.5', 'windowing call sites pass pos and size of one segment', floor=3)
